@@ -75,6 +75,10 @@ def hexDigit (n : Nat) : Nat := if n < 10 then 48 + n else 55 + n
 /-- `"x%02X" % ord(seq)` -/
 def xName (b : Nat) : List Nat := [120, hexDigit (b / 16), hexDigit (b % 16)]
 
+/-- `"bytes: " + "-".join("x%02X" % ord(seq[i:i+1]) for i in range(len(seq)))` -/
+def bytesName (seq : List Nat) : List Nat :=
+  [98, 121, 116, 101, 115, 58, 32] ++ ((seq.map xName).intersperse [45]).flatten
+
 /-- `events._key_name` -/
 def keyName (T : KeyTables) (seq : List Nat) (enc : Enc) : KeyMode → Except PyErr KeyVal
   | .curses =>
@@ -86,7 +90,7 @@ def keyName (T : KeyTables) (seq : List Nat) (enc : Enc) : KeyMode → Except Py
       | none =>
         match seq with
         | [b] => .ok (.text (xName b))
-        | _ => .error .notImplementedError
+        | _ => .ok (.text (bytesName seq))
   | .curtsies =>
     match T.curtsies.lookup seq with
     | some n => .ok (.text n)
